@@ -7,7 +7,8 @@ def handlers : List (String × (List String → Option String)) :=
     ("estep", Engine.handleStep), ("eflush", Engine.handleFlush), ("ewf", Engine.handleWf),
     ("estepref", Engine.handleStepRef), ("eflushref", Engine.handleFlushRef),
     ("interp-linear", Series.handleLinear), ("interp-previous", Series.handlePrevious), ("series-insert", Series.handleInsert),
-    ("capacity", Coverage.handleCapacity), ("propcov", Coverage.handlePropcov), ("effcov", Coverage.handleEffcov) ]
+    ("capacity", Coverage.handleCapacity), ("propcov", Coverage.handlePropcov), ("effcov", Coverage.handleEffcov),
+    ("covout", Covout.handle) ]
 
 /-- One request per line: `<kind> <args…>`; one canonical reply per line. -/
 def dispatch (line : String) : String :=
